@@ -138,3 +138,82 @@ func M_strings_ToLower(s string) string {
 	}
 	return string(b)
 }
+
+// ---- regexp: the three patterns that occur in go-kid/ioc and strconv2.  The
+// receiver is the engine's opaque compiled object: a pointer to the pattern text.
+
+const (
+	patQuote  = "\\${[^{}]*}"
+	patExpr   = "#{[^{}]*}"
+	patNumber = "^(-|\\+)?\\d+(\\.\\d+)?$"
+)
+
+// FindBraced: leftmost match of  <lead>\{[^{}]*\}
+func FindBraced(lead byte, s string) string {
+	for i := 0; i+2 < len(s)+0 && i+1 < len(s); i++ {
+		if s[i] != lead || s[i+1] != '{' {
+			continue
+		}
+		j := i + 2
+		for j < len(s) && s[j] != '{' && s[j] != '}' {
+			j++
+		}
+		if j < len(s) && s[j] == '}' {
+			return s[i : j+1]
+		}
+	}
+	return ""
+}
+
+// MatchNumber: ^(-|\+)?\d+(\.\d+)?$
+func MatchNumber(s string) bool {
+	i := 0
+	if i < len(s) && (s[i] == '-' || s[i] == '+') {
+		i++
+	}
+	d := 0
+	for i < len(s) && s[i] >= '0' && s[i] <= '9' {
+		i++
+		d++
+	}
+	if d == 0 {
+		return false
+	}
+	if i == len(s) {
+		return true
+	}
+	if s[i] != '.' {
+		return false
+	}
+	i++
+	d = 0
+	for i < len(s) && s[i] >= '0' && s[i] <= '9' {
+		i++
+		d++
+	}
+	return d > 0 && i == len(s)
+}
+
+func M_regexp_Regexp_FindString(re *string, s string) string {
+	switch *re {
+	case patQuote:
+		return FindBraced('$', s)
+	case patExpr:
+		return FindBraced('#', s)
+	}
+	Unmodelled("regexp FindString: pattern not modelled")
+	return ""
+}
+
+func M_regexp_Regexp_MatchString(re *string, s string) bool {
+	switch *re {
+	case patQuote:
+		return FindBraced('$', s) != ""
+	case patExpr:
+		return FindBraced('#', s) != ""
+	case patNumber:
+		return MatchNumber(s)
+	}
+	Unmodelled("regexp MatchString: pattern not modelled")
+	return false
+}
